@@ -125,6 +125,62 @@ fn build_fileset(ctx: &Ctx, acc: &mut Acc, n_gen: u64) -> FileSet {
             }
         }
     }
+    // same-length twins that agree in cheap fingerprints of their text: (i) a TAB in front of a letter against a line feed in
+    // front of the letter 31 / 33 / 37 places lower (equal under the usual polynomial string hashes h*31+b, h*33+b, h*37+b);
+    // (ii) a line feed and a blank far apart exchanged (equal length, equal byte histogram, equal sum and xor). The line layout
+    // differs from the changed spot on.
+    for i in 0..n1 {
+        let t = texts[i].clone();
+        let b = t.as_bytes();
+        let mut made = false;
+        let mut tries = 0;
+        let mut p = t.len() / 6;
+        while p + 1 < b.len() && tries < 40 && !made {
+            if b[p] == b' ' && (b'f'..=b'y').contains(&b[p + 1]) && p > 0 && b[p - 1] != b'/' && b[p - 1] != b'*' {
+                tries += 1;
+                let mut t0 = b.to_vec();
+                t0[p] = b'\t';
+                let t0s = String::from_utf8(t0).unwrap();
+                let mut twins: Vec<(String, String)> = vec![];
+                for m in [31u8, 33, 37] {
+                    let mut tm = b.to_vec();
+                    tm[p] = b'\n';
+                    tm[p + 1] = b[p + 1] - m;
+                    let tms = String::from_utf8(tm).unwrap();
+                    if crate::dets::parses(&tms) {
+                        twins.push((format!("{}~wstwin-{}", names[i], m), tms));
+                    }
+                }
+                if twins.len() == 3 && crate::dets::parses(&t0s) {
+                    names.push(format!("{}~wstwin-0", names[i]));
+                    texts.push(t0s);
+                    for (n, x) in twins {
+                        names.push(n);
+                        texts.push(x);
+                    }
+                    acc.cov("files:equal-polynomial-fingerprint-twins");
+                    made = true;
+                }
+            }
+            p += 1;
+        }
+        // (ii)
+        if let (Some(a), Some(z)) = (t[t.len() / 6..].find(' ').map(|x| x + t.len() / 6), t.rfind('\n')) {
+            if let Some(q) = t[..z].rfind('\n') {
+                if a + 1 < q {
+                    let mut tw = b.to_vec();
+                    tw[a] = b'\n';
+                    tw[q] = b' ';
+                    let tws = String::from_utf8(tw).unwrap();
+                    if tws != t && crate::dets::parses(&tws) {
+                        names.push(format!("{}~wstwin-swap", names[i]));
+                        texts.push(tws);
+                        acc.cov("files:equal-histogram-twins");
+                    }
+                }
+            }
+        }
+    }
     // files without any definition
     for (i, t) in MINIMAL_FILES.iter().enumerate() {
         if crate::dets::parses(t) {
@@ -229,6 +285,21 @@ pub fn run(ctx: &Ctx) -> i32 {
                     acc.cov("same-length-different-content-same-file_number");
                     observe(&fs, vi, det, fno, "sequential-same-length-sibling", acc);
                     observe(&fs, fi, det, fno, "sequential-same-length-sibling", acc);
+                }
+            }
+        }
+        // fingerprint twins one after the other on this thread, every detector: A, B, A
+        for _ in 0..2 {
+            let fi = rng.below(nfiles);
+            let find = |tag: &str| fs.names.iter().position(|n| *n == format!("{}~wstwin-{}", fs.names[fi], tag));
+            let pair = if rng.chance(1, 4) { (Some(fi), find("swap")) } else { (find("0"), find(rng.ps(&["31", "33", "37"]))) };
+            if let (Some(a), Some(b)) = pair {
+                acc.cov("fingerprint-twins-in-turn");
+                let fno = rng.below(3);
+                for det in dets::ALL.iter() {
+                    for x in [a, b, a] {
+                        observe(&fs, x, det, fno, "sequential-fingerprint-twins", acc);
+                    }
                 }
             }
         }
